@@ -257,11 +257,14 @@ class Cancel(BaseException):
     pass
 
 
-FAULT_KINDS = (Fault, TypeError, ValueError, AttributeError, BaseFault, KeyError, RuntimeError)
+FAULT_KINDS = (Fault, AttributeError, BaseFault, TypeError, ValueError, KeyError, RuntimeError)
 
 
 def make_fault(sel):
-    return FAULT_KINDS[sel % len(FAULT_KINDS)]("injected-fault")
+    for i in range(len(FAULT_KINDS) - 1):
+        if sel == i:
+            return FAULT_KINDS[i]("injected-fault")
+    return FAULT_KINDS[len(FAULT_KINDS) - 1]("injected-fault")
 
 
 # ---------------------------------------------------------------------------
